@@ -266,8 +266,25 @@ for _n in list(H):
         H[_n]["mem_gb"] = 44
 
 # --------------------------------------------------------------------------------------- tables
-PROP_BOUNDS = {}
-PROP_OUTSIDE = {}
+COMMON_ASSUMPTIONS = [
+    "Kani 0.68 / CBMC 6.11 model of Rust semantics, IEEE-754 arithmetic bit-precise; no allocation failure; debug assertions on (dev profile)",
+    "every result is bounded: it holds for all inputs of the stated harness domain and says nothing outside it",
+    "where listed as stub: robust::orient2d is replaced by the plain f64 determinant, exact on the lattice / fixed-point domains used (trusted, DESIGN 2.3); native replays run the real predicate",
+    "callee contract models (listed as stubs) stand for functions whose real bodies are decided by their own harnesses (assume-guarantee composition is a paper step)",
+]
+PROP_BOUNDS = {
+    "C14": "complete flag space of one compute_fields step (operation, operand tags, world below, predecessor kind, stale state); geometry concrete",
+    "C01": "flag space complete; dispatch: boxes in {0..7}^4, operands of 1 polygon (predicate) / <= 3 polygons (forwarding)",
+    "C15": "event pairs on the 4x4 lattice window, segment pairs on the 3x3 window (quick); triples and larger windows in the thorough tier",
+    "C16": "segment pairs on the 4x4 (quick) / 6x6 (thorough) lattice window; Overlap arm on interval templates; one-ulp lattice of 3x4 points",
+    "C17": "<= 2 updates with symbolic keys < 4 (quick) plus every 3-node shape for remove / reference stability; <= 4 updates (thorough)",
+    "C18": "12-node chains, unwind 8 (recursion verdict) and 30 (complete pass)",
+}
+PROP_OUTSIDE = {p: "whole BooleanOp calls, the sweep loop beyond the three-segment templates, the contour walk, general-position floats (see DESIGN.md 3, 4, 10)" for p in
+                ("C01", "C02", "C03", "C04", "C05", "C06", "C07", "C08", "C10", "C13", "C14", "C16")}
+PROP_OUTSIDE["C15"] = "more than three events/segments at a time, windows larger than stated, general-position floats"
+PROP_OUTSIDE["C17"] = "histories longer than four updates, more than four keys, long random histories"
+PROP_OUTSIDE["C18"] = "CBMC has no stack model: the claim is 'no recursion following the chain' on 12-node chains; the step to 10^6 nodes is structural induction (paper)"
 PROP_ASSUMPTIONS = {}
 
 # Explicit quick tiers (the check run on every change): the harnesses most specific to the property,
